@@ -140,3 +140,75 @@ for n in (2, 3):
     ob(f'trees::c16_search_best_n{n}', ['C16'], ['trees::Trees::search_best', 'util::SortedBuffer::add', 'util::SortedBuffer::iter'], kind='config-bounded',
        bound=f'4 trees, capacity {n}, every start, every rating assignment (Match(any)/Demote/Steal/Invalid per tree), every reserved-flag pattern',
        assumes=['std <[T]>::rotate_right / rotate_left(1) (assumed contract of the standard library)'], timeout=900)
+
+# ------------------------------------------------------------------------------------------------
+# L2: allocator level (LLFree), lower allocator by contract over the ghost view
+# ------------------------------------------------------------------------------------------------
+L2B = 'config-bounded: 2 trees, classes 0..%d with one slot each%s; ALL tree words / slot words / lower free counts under invariant I; every kind-policy (symbolic 8x8 kind table, 3-level Match priority)'
+L2_ASSUMES = ['lower::Lower::put/get/stats_at/stats by contract over the ghost view (checked by l1b_* obligations)', 'atomic::Atom::try_update / update sequential contract (l1a_atom_*)',
+              'policy precondition: kind(c, c) == Match for every class c']
+ob('llfree::c08_check_full_domain', ['C08', 'C09'], ['llfree::LLFree::check'], bound='frame, order over ALL usize values, classes 0..7, 2 configured classes, 2 trees', cover=True)
+for name, nc, zs in (('2classes', 2, ''), ('3classes_zero_slot', 3, ', last class WITHOUT slots')):
+    ob(f'llfree::l2_put_{name}', ['C02', 'C04', 'C08', 'C09'], ['llfree::LLFree::put', 'local::Locals::put', 'trees::Trees::put'], kind='config-bounded',
+       bound=L2B % (nc - 1, zs) + '; frame over all usize, every order', assumes=L2_ASSUMES)
+    ob(f'llfree::l2_drain_{name}', ['C10', 'C09', 'C04'], ['llfree::LLFree::drain', 'local::Locals::drain', 'trees::Trees::unreserve'], kind='config-bounded',
+       bound=L2B % (nc - 1, zs), assumes=L2_ASSUMES, cover=False)
+    ob(f'llfree::l2_tree_stats_{name}', ['C14', 'C04'], ['llfree::LLFree::tree_stats', 'trees::Trees::stats', 'local::Locals::stats'], kind='config-bounded',
+       bound=L2B % (nc - 1, zs) + '; states where no reservation holds free frames', assumes=L2_ASSUMES, cover=False)
+    ob(f'llfree::l2_tree_stats_reserved_{name}', ['C14', 'C04'], ['llfree::LLFree::tree_stats', 'trees::Trees::stats', 'local::Locals::stats'], kind='config-bounded',
+       bound=L2B % (nc - 1, zs) + '; states where a reservation holds free frames', assumes=L2_ASSUMES, cover=False)
+ob('llfree::l2_validate_2classes', ['C04'], ['llfree::LLFree::validate'], kind='config-bounded', bound=L2B % (1, '') + '; no tree offline', assumes=L2_ASSUMES, cover=False, timeout=1200, tier='thorough')
+ob('llfree::l2_change_tree_2classes', ['C15', 'C09'], ['llfree::LLFree::change_tree', 'trees::Trees::change', 'trees::Trees::change_at', 'trees::Trees::search'], kind='config-bounded',
+   bound=L2B % (1, '') + '; every matcher/change, tree id < number of trees', assumes=L2_ASSUMES)
+
+# L2 allocation paths, verified modularly against the generic helper contract G
+G_ASSUMES = L2_ASSUMES + ['generic helper contract G for inner allocation helpers (each checked by its own l2_* obligation)',
+                          'trees::Trees::search_best by contract (l1b_search_best_result_n3, c16_search_best_n*)',
+                          'policy precondition: demotion composes (kind(a,b)=Demote and kind(b,c) in {Match,Demote} => kind(a,c) in {Match,Demote})']
+PATHS = [
+    ('l2_steal_global_2c', ['llfree::LLFree::steal_global', 'trees::Trees::steal'], 'quick'),
+    ('l2_steal_global_at_2c', ['llfree::LLFree::steal_global'], 'quick'),
+    ('l2_steal_global_3c_zero_slot', ['llfree::LLFree::steal_global'], 'thorough'),
+    ('l2_reserve_or_steal_2c', ['llfree::LLFree::reserve_or_steal', 'trees::Trees::reserve_or_steal', 'trees::Trees::unreserve', 'local::Locals::swap'], 'quick'),
+    ('l2_reserve_or_steal_3c_zero_slot', ['llfree::LLFree::reserve_or_steal'], 'quick'),
+    ('l2_get_local_2c', ['llfree::LLFree::get_local', 'local::Locals::get', 'trees::Trees::sync', 'local::Locals::set_start'], 'quick'),
+    ('l2_get_local_at_2c', ['llfree::LLFree::get_local'], 'quick'),
+    ('l2_steal_local_2c', ['llfree::LLFree::steal_local', 'local::Locals::steal_any'], 'thorough'),
+    ('l2_steal_local_at_3c_zero_slot', ['llfree::LLFree::steal_local', 'local::Locals::steal_any'], 'thorough'),
+    ('l2_demote_local_2c', ['llfree::LLFree::demote_local', 'local::Locals::demote_any'], 'thorough'),
+    ('l2_demote_local_at_3c_zero_slot', ['llfree::LLFree::demote_local', 'local::Locals::demote_any'], 'thorough'),
+    ('l2_search_and_reserve_2c', ['llfree::LLFree::search_and_reserve'], 'thorough'),
+    ('l2_search_and_reserve_3c_zero_slot', ['llfree::LLFree::search_and_reserve'], 'thorough'),
+    ('l2_get_at_2c', ['llfree::LLFree::get_at'], 'thorough'),
+    ('l2_get_2c', ['llfree::LLFree::get'], 'thorough'),
+    ('l2_get_targeted_2c', ['llfree::LLFree::get'], 'quick'),
+    ('l2_get_3c_zero_slot', ['llfree::LLFree::get'], 'thorough'),
+]
+for name, fns, tier in PATHS:
+    nc = 3 if '3c' in name else 2
+    ob(f'llfree::{name}', ['C09', 'C13', 'C15', 'C02', 'C04'], fns, tier=tier, kind='config-bounded',
+       bound=L2B % (nc - 1, ', last class WITHOUT slots' if '3c' in name else '') + '; every order, class, slot choice' + ('; every target block' if '_at' in name or 'targeted' in name else ''),
+       assumes=G_ASSUMES, timeout=1500, cover=False)
+ob('trees::l1b_search_best_result_n3', ['C09', 'C13', 'C16'], ['trees::Trees::search_best'], kind='config-bounded', tier='thorough',
+   bound='4 trees, capacity 3, every rating, every access outcome sequence (Memory / Ok / other error)', timeout=1200, cover=False)
+
+# C04 lower queries, C07, C08 construction, C17 wrappers
+for name, fns in (('c04_lower_stats', ['lower::Lower::stats']), ('c04_lower_stats_at_h1', ['lower::Lower::stats_at']),
+                  ('c04_lower_is_free_o0_h1', ['lower::Lower::is_free']), ('c04_lower_is_free_o4_h2', ['lower::Lower::is_free']),
+                  ('c04_lower_is_free_o7_h0', ['lower::Lower::is_free']), ('c04_lower_is_free_o9_h3', ['lower::Lower::is_free']),
+                  ('c04_lower_is_free_o10_h2', ['lower::Lower::is_free'])):
+    ob(f'lower::{name}', ['C04', 'C10'], fns, kind='config-bounded', bound='1 tree (2048 frames), all bit states and entries under wf_lower, ghost zeros with lemma instances',
+       assumes=['ghost zeros lemmas Z2/Z3 (l1a_zeros_lemmas_o*)'], cover=False)
+ob('llfree::c08_new_rejects_bad_metadata', ['C08', 'C18'], ['llfree::LLFree::new', 'llfree::MetaData::valid', 'lower::Lower::new', 'local::Locals::new', 'trees::Trees::new'], kind='config-bounded',
+   bound='frames = TREE_FRAMES+5, 2 classes; three buffers carved at ANY offsets/lengths out of one 2 KiB array (so: every shortfall, every misalignment, every overlap)')
+ob('llfree::c07_init_none_keeps_buffers', ['C07', 'C18'], ['llfree::LLFree::new', 'llfree::LLFree::metadata', 'lower::Lower::new', 'lower::Lower::metadata', 'local::Locals::new', 'local::Locals::metadata', 'trees::Trees::new', 'trees::Trees::metadata'],
+   kind='config-bounded', bound='frames = TREE_FRAMES+5, 2 classes, ARBITRARY buffer contents (2 KiB symbolic)', cover=False)
+ob('wrapper::c17_zone_translation', ['C17', 'C08'], ['wrapper::ZoneAlloc::get', 'wrapper::ZoneAlloc::put', 'wrapper::ZoneAlloc::stats_at'],
+   bound='every offset <= 2^50, every frame, EVERY inner allocator behaviour (contract stub with arbitrary results)')
+ob('wrapper::c17_zone_create', ['C17'], ['wrapper::ZoneAlloc::create'], bound='every offset, frames <= 2^30', cover=False)
+# initialisation establishes the invariant the sequential history induction starts from
+for o in OBS:
+    if o['name'].startswith('lower::c06_') or o['name'] == 'bitfield::l1a_zeros_lemma_prefix':
+        for p in ('C02', 'C04'):
+            if p not in o['props']:
+                o['props'].append(p)
